@@ -22,7 +22,16 @@ def cases(draw):
     n = draw(st.integers(1, 60))
     P = gens.rounded(draw(gens.logfloat(0.5, 500.0)), 9)
     t0 = gens.rounded(draw(gens.fl(50000.0, 58000.0)), 9)
-    mode = draw(st.sampled_from(["random", "wrap", "wrap", "cluster"]))
+    mode = draw(st.sampled_from(["random", "wrap", "wrap", "cluster", "grid"]))
+    if mode == "grid":
+        # epochs at exact multiples of P/16 after the reference epoch, P a power of two: every phase is an exactly
+        # representable multiple of 1/16, many of them bin edges for n_bins in {2, 4, 8, 16}
+        P = float(2 ** draw(st.integers(-2, 6)))
+        t0 = float(draw(st.integers(50000, 58000)))
+        ts = [t0 + draw(st.integers(0, 16 * 40)) * P / 16 for _ in range(n)]
+        return {"t": ts, "P": P, "P_unit": "d", "t_ref": "explicit", "t_ref_val": t0,
+                "n_bins": draw(st.sampled_from([2, 4, 8, 16, 3, 5])), "perm_seed": draw(st.integers(0, 10**6)), "mode": mode,
+                "clean": draw(st.sampled_from([True, True, False])), "presorted": draw(st.booleans())}
     nper = draw(gens.logfloat(1e-2, 1e4))
     if mode == "random":
         ts = [t0 + draw(gens.fl(0, nper * P)) for _ in range(n)]
@@ -120,6 +129,10 @@ def body_factory(ctx):
         edges = np.arange(nb + 1) / nb
         idx = np.minimum((phase * nb).astype(int), nb - 1)
         ambiguous = int(np.sum(np.min(np.abs(phase[:, None] - edges[None, :]), axis=1) < ptol))
+        if case["mode"] == "grid":
+            # all arithmetic is exact here (dyadic phases): a phase on an edge belongs to the bin that starts there
+            # (half-open bins [a, b): those of numpy.histogram, which the function is built on), nothing is ambiguous
+            ambiguous = 0
         want_pc = len(set(idx.tolist())) / nb
         if abs(pc - want_pc) > ambiguous / nb + 1e-12:
             raise Violation("phase_coverage is not the fraction of occupied phase bins", got=pc, want=want_pc,
@@ -145,7 +158,8 @@ def body_factory(ctx):
 def map_cases(draw):
     n = draw(st.integers(1, 30))
     vals = st.one_of(st.integers(-3, 3).map(float), gens.fl(-50, 50), st.just(float("-inf")))
-    return {"ln_prior": [draw(vals) for _ in range(n)], "ln_like": [draw(vals) for _ in range(n)],
+    shift = draw(st.sampled_from([0.0, 0.0, -2000.0, 1500.0, -1e6]))     # ln-likelihoods of long time series / tiny errors
+    return {"ln_prior": [draw(vals) for _ in range(n)], "ln_like": [x + shift if x != float("-inf") else x for x in (draw(vals) for _ in range(n))],
             # an additional stored column (samples made from an MCMC trace carry one); it is not part of the definition
             "ln_posterior": draw(st.one_of(st.none(), st.lists(gens.fl(-50, 50), min_size=n, max_size=n)))}
 
